@@ -195,6 +195,20 @@ def probe_route(route):
     rq = restore(route, unyt_quantity(2.0, cold_unit("km", reg)))
     us = rq.units.registry.unit_system
     out["keepsUnitSystem"] = getattr(us, "name", str(us)) == "cgs"
+    # --- default rows re-declared through add() with exactly the default data except ONE field ------
+    reg = UnitRegistry()
+    for sym, field in (("ft", "value"), ("AU", "dimensions"), ("hr", "offset"), ("ly", "tex"),
+                       ("mile", "prefixable"), ("bar", "prefixable"), ("Msun", "prefixable")):
+        redeclare(reg, sym, field)
+    want = {k: tuple(reg.lut[k]) for k in ("ft", "AU", "hr", "ly", "mile", "bar", "Msun")}
+    assert want["mile"][4] is True and want["bar"][4] is False and want["Msun"][4] is True
+    rq = restore(route, unyt_quantity(2.0, cold_unit("km", reg)))
+    L = rq.units.registry.lut
+    lost = {k: row_diff(want[k], L[k]) if k in L else ["missing"] for k in want}
+    out["keepsModifiedDefault"] = bool(out["keepsModifiedDefault"] and not lost["ft"] and not lost["AU"] and not lost["hr"])
+    out["keepsFlagOnlyDefault"] = not lost["mile"] and not lost["bar"] and not lost["Msun"]
+    notes["texOnlyKept"] = not lost["ly"]
+    notes["oneFieldRowsLost"] = {k: v for k, v in lost.items() if v}
     if unit_route:
         # nothing but the unit travels: the numbers are the caller's own
         out["keepsValues"] = out["keepsDtype"] = out["keepsClass"] = True
@@ -203,7 +217,8 @@ def probe_route(route):
 
 FLAG_ORDER = ["keepsValues", "keepsDtype", "keepsClass", "unitSame", "unitByDisplayStr", "unitDataCarried",
               "unitCanonOnCanon", "unitCanonOnNon", "regSame", "keepsAdded", "keepsModifiedDefault", "keepsRemoved",
-              "userRowCanonOnCanon", "userRowCanonOnNon", "dfltRowCanonOnCanon", "dfltRowCanonOnNon", "keepsUnitSystem"]
+              "userRowCanonOnCanon", "userRowCanonOnNon", "dfltRowCanonOnCanon", "dfltRowCanonOnNon", "keepsUnitSystem",
+              "keepsFlagOnlyDefault"]
 
 
 # ---------------------------------------------------------------------------------------
@@ -387,6 +402,166 @@ def state_diff(q, r):
         if o not in seen:
             seen.append(o)
     return seen
+
+
+# ---------------------------------------------------------------------------------------
+# registry CONTENTS, field by field: registries whose rows differ from the default table in ONE
+# field, sent through every route (also routes on which only a registry travels), and the direct
+# oracle "the restored registry's observable contents equal the original's"
+
+
+# routes on which a registry (or a Unit with its registry) travels without any array; the object
+# handed back is the caller's numbers with the unit rebuilt by its expression in the restored registry
+REGISTRY_ROUTES = ["pickleRegistry", "copyRegistry", "deepcopyRegistry", "unitCopyDeep"]
+CONTENT_ROUTES = ROUTES + REGISTRY_ROUTES
+PICKLE_ROUTES = ("pickleArray", "pickleUnit", "pickleRegistry")
+
+
+def restore_contents(route, q, protocol=None):
+    """`restore` extended by the registry-only routes"""
+    from unyt import Unit
+
+    if route in ROUTES:
+        return restore(route, q, protocol)
+    reg = q.units.registry
+    if route == "pickleRegistry":
+        reg2 = pickle.loads(pickle.dumps(reg, protocol=protocol if protocol is not None else pickle.DEFAULT_PROTOCOL))
+    elif route == "copyRegistry":
+        reg2 = copy.copy(reg)
+    elif route == "deepcopyRegistry":
+        reg2 = copy.deepcopy(reg)
+    elif route == "unitCopyDeep":
+        return rewrap(q, q.units.copy(deep=True))
+    else:
+        raise ValueError(route)
+    return rewrap(q, Unit(str(q.units.expr), registry=reg2))
+
+
+ROW_FIELDS = ("value", "dimensions", "offset", "tex", "prefixable")
+
+
+def redeclare(reg, sym, field, tex="auto"):
+    """re-declare the DEFAULT symbol `sym` through `reg.add` with exactly the default table's data
+    except for ONE field: 'value' | 'dimensions' | 'offset' | 'prefixable' (flag flipped) | 'tex';
+    field 'none' re-declares it unchanged.  tex='auto': `tex_repr` is passed only when add()'s own
+    guess would not give the wanted text; tex='explicit': always passed"""
+    import unyt.dimensions as D
+    from unyt._unit_lookup_table import default_unit_symbol_lut as dflt
+
+    v, dims, off, t, pfx = dflt[sym]
+    v, off, pfx = float(v), float(off), bool(pfx)
+    if field == "value":
+        v = v * 1.5
+    elif field == "dimensions":
+        dims = dims * D.luminous_intensity
+    elif field == "offset":
+        off = off + 10.0
+    elif field == "prefixable":
+        pfx = not pfx
+    elif field == "tex":
+        t = r"\rm{x" + sym + "}"
+    elif field != "none":
+        raise ValueError(field)
+    guess = r"\rm{" + sym.replace("_", r"\ ") + "}"
+    reg.add(sym, v, dims, tex_repr=(t if (tex == "explicit" or t != guess) else None), offset=(off if off != 0.0 else None),
+            prefixable=pfx)
+
+
+def row_diff(a, b):
+    """the fields in which two table rows differ"""
+    out = []
+    if float(a[0]) != float(b[0]):
+        out.append("value")
+    if not (a[1] is b[1] or a[1] == b[1]):
+        out.append("dimensions")
+    if float(a[2]) != float(b[2]):
+        out.append("offset")
+    if a[3] != b[3]:
+        out.append("tex")
+    if len(a) != len(b) or (len(a) > 4 and bool(a[4]) != bool(b[4])):
+        out.append("prefixable")
+    return out
+
+
+def symbol_class(sym):
+    """'user' for a symbol that is not in the default table; else whether the default tex is what
+    `UnitRegistry.add` guesses when no tex_repr is given"""
+    from unyt._unit_lookup_table import default_unit_symbol_lut as dflt
+
+    if sym not in dflt:
+        return "user"
+    return "tex-guess" if dflt[sym][3] == r"\rm{" + sym.replace("_", r"\ ") + "}" else "tex-other"
+
+
+def prefixed_behaviour(R, sym):
+    """what registry `R` answers for the SI-prefixed spellings of `sym`: known or unknown, what
+    2 <sym> converts to in them (value + unit, or the refusal), and 2 <sym> in mks"""
+    from unyt import unyt_quantity
+
+    out = []
+    for p in ("k", "m"):
+        name = p + sym
+        out.append((name, "known", outcome(lambda n=name: n in R)))
+        out.append((name, "to", outcome(lambda n=name: unyt_quantity(2.0, sym, registry=R).to(n))))
+    out.append((sym, "mks", outcome(lambda: unyt_quantity(2.0, sym, registry=R).in_mks())))
+    return out
+
+
+def watched_symbols(Q, R, extra=()):
+    """every symbol whose row differs from the default table (in any of the five fields) in the
+    original or in the restored registry, user symbols, and default symbols missing from either"""
+    from unyt._unit_lookup_table import default_unit_symbol_lut as dflt
+
+    cq, cr = contents(Q), contents(R)
+    watch = set(extra)
+    for k in set(cq) | set(cr) | set(dflt):
+        d = dflt.get(k)
+        a, b = cq.get(k), cr.get(k)
+        if d is None or a is None or b is None or (a is not d and row_diff(a, d)) or (b is not d and row_diff(b, d)):
+            watch.add(k)
+    return sorted(watch), cq, cr
+
+
+def contents_check(q, r, extra=()):
+    """DIRECT ORACLE (never consults the model): the restored object's registry has the same
+    observable contents as the original's.  -> [(symbol, observed, detail)], observed one of
+      row:value | row:dimensions | row:offset | row:tex | row:prefixable | row:missing | row:spurious
+          (table rows, for every symbol that differs from the default table on either side)
+      prefixed:known | prefixed:to | prefixed:mks
+          (the SI-prefixed spellings k<sym>, m<sym> are known/unknown alike, 2 <sym> converts to them
+           and to mks alike: same value and unit, or the same refusal)
+      own:to   (the restored OBJECT converts to the prefixed spellings of its own unit as the original does)"""
+    Q, R = q.units.registry, r.units.registry
+    obs = []
+    watch, cq, cr = watched_symbols(Q, R, extra)
+    for k in watch:
+        a, b = cq.get(k), cr.get(k)
+        if a is None and b is None:
+            continue
+        if a is None:
+            obs.append((k, "row:spurious", f"absent -> {b!r}"))
+        elif b is None:
+            obs.append((k, "row:missing", f"{a!r} -> absent"))
+        elif a is not b:
+            for f in row_diff(a, b):
+                obs.append((k, "row:" + f, f"{a!r} -> {b!r}"))
+    if R is not Q:
+        clear_caches()
+        bq = {k: prefixed_behaviour(Q, k) for k in watch}
+        br = {k: prefixed_behaviour(R, k) for k in watch}
+        for k in watch:
+            for (name, what, o1), (_n, _w, o2) in zip(bq[k], br[k]):
+                if not same_outcome(o1, o2):
+                    obs.append((k, "prefixed:" + what, f"{name}: original {o1!r}, restored {o2!r}"))
+    if r.units is not q.units:
+        names = [str(s) for s in q.units.expr.free_symbols]
+        if len(names) == 1 and q.units.expr.is_Symbol:
+            for p in ("k", "m"):
+                o1 = outcome(lambda: q.to(p + names[0]))
+                o2 = outcome(lambda: r.to(p + names[0]))
+                if not same_outcome(o1, o2):
+                    obs.append((names[0], "own:to", f"x.to({p + names[0]!r}): original {o1!r}, restored {o2!r}"))
+    return obs
 
 
 # ---------------------------------------------------------------------------------------
